@@ -42,6 +42,9 @@ func continueTag(string) (func(io.Writer, render.Context) error, error) {
 	}, nil
 }
 
+// cycleState holds the position of each cycle group of one loop.
+type cycleState map[string]int
+
 func cycleTag(args string) (func(io.Writer, render.Context) error, error) {
 	stmt, err := expressions.ParseStatement(expressions.CycleStatementSelector, args)
 	if err != nil {
@@ -58,7 +61,9 @@ func cycleTag(args string) (func(io.Writer, render.Context) error, error) {
 		if !ok {
 			return ctx.Errorf("cycle must be within a forloop")
 		}
-		cycleMap, ok := loopRec[".cycles"].(map[string]int)
+		// Only a loop renderer can make a cycleState: a caller's binding that merely looks like a
+		// loop record is data, and is never written to.
+		cycleMap, ok := loopRec[".cycles"].(cycleState)
 		if !ok {
 			return ctx.Errorf("cycle must be within a forloop")
 		}
@@ -125,7 +130,7 @@ func (loop loopRenderer) render(iter iterable, w io.Writer, ctx render.Context) 
 		ctx.Set(forloopVarName, index)
 		ctx.Set(loop.Variable, forloop)
 	}(ctx.Get(forloopVarName), ctx.Get(loop.Variable))
-	cycleMap := map[string]int{}
+	cycleMap := cycleState{}
 loop:
 	for i, l := 0, iter.Len(); i < l; i++ {
 		ctx.Set(loop.Variable, iter.Index(i))
